@@ -61,6 +61,18 @@ theorem shopLower_wf : printBuildWF shopLower = true := by decide
 theorem shopLower_needs_block : needsSchemaBlock shopLower = true := by decide
 theorem shopLower_roundtrip : build (schemaToDoc shopLower) = .ok shopLower := print_build_roundtrip shopLower shopLower_wf
 
+/-- finding H9 (fixed in /repo 6d6998f): a type NAMED `Mutation` that is not the mutation root. The schema is
+    well-formed, the printer writes the `schema` block, and the round trip holds — no hypothesis excludes the shape. -/
+def h9Schema : SchemaD :=
+  { types := [{ kind := .object, name := "Query", fields := [{ name := "a", type := .named "Int" }] },
+              { kind := .object, name := "Mutation", fields := [{ name := "m", type := .named "Int" }] },
+              { kind := .scalar, name := "Subscription" }],
+    query := some "Query" }
+
+theorem h9_wf : printBuildWF h9Schema = true := by decide
+theorem h9_needs_block : needsSchemaBlock h9Schema = true := by decide
+theorem h9_roundtrip : build (schemaToDoc h9Schema) = .ok h9Schema := print_build_roundtrip h9Schema h9_wf
+
 /-! ### finding H2: the exclusion `skippable` is needed -/
 
 mutual
